@@ -45,6 +45,16 @@ EXH = {
     },
 }
 
+# liveness (FairSpec => every started call returns): configurations checked next to the invariant jobs
+LIVE = {
+    "quick": {"C10": [([1, 2], 3, 4, 1, ["add", "compactrange"], False, [1], ["reload", "reopen"])],
+              "C04": [([1, 2], 1, 5, 2, ["add", "compactall"], False)]},
+    "thorough": {"C10": [([1, 2], 3, 6, 2, ["add", "compactrange", "compactall", "reload"], False),
+                         ([1, 2, 3], 2, 6, 1, ["add", "compactrange", "reload"], False)],
+                 "C04": [([1, 2], 2, 6, 2, ["add", "compactall", "clean"], False)],
+                 "C16": [([1, 2], 2, 6, 2, ["add", "abort", "compactall", "clean"], False)]},
+}
+
 # direction A, systematic: transition cover of the state graph of a (smaller) configuration, replayed on the code.
 # (handles, maxops, maxids, initn, opkinds, crash, readers, readerops, readermax), paths replayed (None = the complete cover)
 COVER = {
@@ -154,6 +164,19 @@ def run(pid, tier):
                 r["cfg"] = dict(handles=hs, maxops=mo, maxids=mi, initn=n, opkinds=ops, crash=crash, readers=list(rd), readerops=list(rops))
                 exh.append(r)
                 shutil.rmtree(sd, ignore_errors=True)
+            for i, cfg in enumerate(LIVE[tier].get(pid, [])):
+                hs, mo, mi, n, ops, crash = cfg[:6]
+                rd, rops = (cfg[6], cfg[7]) if len(cfg) > 6 else ((), ())
+                sd = os.path.join(sc, "live-%d" % i)
+                shutil.copytree(os.path.join(C.VERIF, "spec"), sd)
+                with open(os.path.join(sd, "live.cfg"), "w") as f:
+                    f.write(P.proto_cfg(hs, mo, mi, n, ops, crash, readers=rd, readerops=rops, invariants=False, live=True))
+                r = C.tlc(sd, "StackProto", "live.cfg", sc, workers=4 if tier == "quick" else 12,
+                          timeout=420 if tier == "quick" else 3600, heap="8g" if tier == "quick" else "24g")
+                r["cfg"] = dict(handles=hs, maxops=mo, maxids=mi, initn=n, opkinds=ops, crash=crash, readers=list(rd), readerops=list(rops), liveness="C10_EveryCallReturns under FairSpec")
+                r["live"] = True
+                exh.append(r)
+                shutil.rmtree(sd, ignore_errors=True)
 
         th = threading.Thread(target=exhaustive)
         th.start()
@@ -260,6 +283,10 @@ def run(pid, tier):
             if r["rc"] == -9:
                 raise C.Inconclusive("exhaustive TLC run timed out: %s" % r["cfg"])
             inv, dead = C.tlc_violations(r["out"])
+            if r.get("live"):
+                if "Model checking completed. No error has been found" not in r["out"]:
+                    raise C.Inconclusive("the specification admits a call that never returns (or TLC failed) in %s:\n%s" % (r["cfg"], r["out"][-3000:]))
+                continue
             if inv:
                 model_viol.append((inv[0], r))
             elif "Model checking completed. No error has been found" not in r["out"]:
